@@ -405,3 +405,192 @@ Proof.
     simpl. now apply view_data.
   - split; [apply Forall_nil_2|]. unfold h_rpc. destruct (matching s u); try exact VW. now apply sim_delete_repo.
 Qed.
+
+(* ------------------------------------------------------------------ resolve: some sequence of accepted operations *)
+
+Definition sim_to (c : core) (s' : state) (i : N) : Prop :=
+  exists xs, Forall dag_xop xs /\ view_ok (xrun xs c) s' i.
+
+Lemma sim_to_refl c s i : view_ok c s i -> sim_to c s i.
+Proof. intros V. exists []. split; [constructor|exact V]. Qed.
+
+Lemma sim_to_step c s1 s2 i : sim_to c s1 i -> (forall c1, view_ok c1 s1 i -> sim_to c1 s2 i) -> sim_to c s2 i.
+Proof.
+  intros (xs & D & V) H. destruct (H _ V) as (ys & D' & V').
+  exists (xs ++ ys)%list. split; [apply Forall_app; auto|]. now rewrite xrun_app.
+Qed.
+
+Lemma sim_resolve_extend i olds conf : forall s ext c,
+  RepoInv s -> NoDup (List.map snd conf) -> absent s (List.map snd conf) -> view_ok c s i ->
+  sim_to c (fst (resolve_extend repaired s olds ext conf)) i.
+Proof.
+  induction conf as [|[k f] conf IH]; intros s ext c I ND A VW; simpl.
+  - now apply sim_to_refl.
+  - simpl in ND. apply NoDup_cons in ND as [Nf ND].
+    assert (A' : absent s (List.map snd conf)) by (intros g Hg; apply A; simpl; apply elem_of_cons; auto).
+    destruct (nth_error olds k) as [old|]; [|now apply IH].
+    destruct (extension_of ext old); [now apply IH|].
+    destruct (A f) as [Hne Hcu]; [simpl; apply elem_of_cons; auto|].
+    pose proof (inv_new_version s old (s_conflict_prefix ++ old) None f I (conflict_branch_not_master old)
+                  (fun _ => conj Hne Hcu)) as I1.
+    pose proof (new_version_u2v_other repaired s old (s_conflict_prefix ++ old) None f) as U1.
+    pose proof (sim_new_version s old (s_conflict_prefix ++ old) None f c i I VW) as S1.
+    pose proof (new_version_xs_dag s old i (snd (do_new_version repaired s old (s_conflict_prefix ++ old) None f))) as D1.
+    destruct (do_new_version repaired s old (s_conflict_prefix ++ old) None f) as [s1 o]. simpl in I1, U1, S1, D1.
+    assert (A1 : absent s1 (List.map snd conf)).
+    { intros g Hg. destruct (A' g Hg) as [G1 G2]. split; auto. apply U1; auto. intros ->. contradiction. }
+    assert (Hgo : forall ext', sim_to c (fst (resolve_extend repaired s1 olds ext' conf)) i).
+    { intros ext'. eapply sim_to_step; [eexists; split; [exact D1|exact S1]|].
+      intros c1 V1. now apply IH. }
+    destruct o; apply Hgo.
+Qed.
+
+Lemma sim_resolve_data i u olds data : forall s ext c,
+  RepoInv s -> NoDup (data_fresh data) -> absent s (data_fresh data) -> view_ok c s i ->
+  sim_to c (fst (resolve_data repaired s u olds ext data)) i.
+Proof.
+  induction data as [|[name conf] data IH]; intros s ext c I ND A VW; simpl.
+  - now apply sim_to_refl.
+  - unfold data_fresh in ND, A. simpl in ND, A. apply NoDup_app in ND as (ND1 & Hdisj & ND2).
+    destruct (repo_by_uuid s u) as [r|]; [|now apply sim_to_refl].
+    destruct (in_list name (r_data r)); [|now apply sim_to_refl].
+    assert (A1 : absent s (List.map snd conf)) by (intros g Hg; apply A, elem_of_app; auto).
+    destruct (inv_resolve_extend olds conf s ext I ND1 A1) as [I1 U1].
+    pose proof (sim_resolve_extend i olds conf s ext c I ND1 A1 VW) as S1.
+    destruct (resolve_extend repaired s olds ext conf) as [s1 ext1]. simpl in I1, U1, S1.
+    assert (A2 : absent s1 (data_fresh data)).
+    { intros g Hg. destruct (A g) as [G1 G2]; [apply elem_of_app; auto|]. split; auto.
+      apply U1; auto. intros Hin. apply (Hdisj g Hin Hg). }
+    eapply sim_to_step; [exact S1|]. intros c1 V1. now apply IH.
+Qed.
+
+Lemma sim_commit_extensions i olds : forall news s c, RepoInv s -> view_ok c s i ->
+  sim_to c (fst (commit_extensions s olds news)) i.
+Proof.
+  induction olds as [|o olds IH]; intros [|n news] s c I VW; simpl; try now apply sim_to_refl.
+  destruct (String.eqb o n); [now apply IH|].
+  pose proof (inv_commit s n I) as I1. pose proof (sim_commit s n c i VW) as S1.
+  pose proof (commit_xs_dag s n i) as D1.
+  destruct (do_commit s n) as [s1 [[]| | |]]; simpl in *;
+    try (eexists; split; [exact D1|exact S1]).
+  eapply sim_to_step; [eexists; split; [exact D1|exact S1]|]. intros c1 V1. now apply IH.
+Qed.
+
+Lemma sim_resolve s x data ps f c i : RepoInv s -> oracle_ok s (RResolve x data ps f) -> view_ok c s i ->
+  sim_to c (fst (h_resolve repaired s x data ps f)) i.
+Proof.
+  intros I [ND FA] VW. simpl in ND, FA. fold (data_fresh data) in ND, FA.
+  unfold h_resolve. destruct (repo_gate s x) as [u| | |]; try now apply sim_to_refl.
+  destruct data as [|d data']; [now apply sim_to_refl|]. set (data := d :: data') in *.
+  destruct (length ps <? 2)%nat; [now apply sim_to_refl|].
+  destruct (match_all s ps) as [olds| | |]; try now apply sim_to_refl.
+  match goal with |- context [if ?b then _ else _] => destruct b end; [now apply sim_to_refl|].
+  apply NoDup_app in ND as (ND1 & Hdisj & _).
+  assert (A : absent s (data_fresh data)).
+  { intros g Hg. rewrite Forall_forall in FA. apply fresh_ok_parts, FA, elem_of_app. auto. }
+  destruct (inv_resolve_data u olds data s [] I ND1 A) as [I1 U1].
+  pose proof (sim_resolve_data i u olds data s [] c I ND1 A VW) as S1.
+  destruct (resolve_data repaired s u olds [] data) as [s1 [ext|]]; simpl in I1, U1, S1; [|exact S1].
+  match goal with |- context [commit_extensions s1 olds ?n] => set (news := n) end.
+  destruct (inv_commit_extensions olds news s1 I1) as [I2 U2].
+  eapply sim_to_step; [exact S1|]. intros c1 V1.
+  pose proof (sim_commit_extensions i olds news s1 c1 I1 V1) as S2.
+  destruct (commit_extensions s1 olds news) as [s2 [|]]; simpl in I2, U2, S2; [|exact S2].
+  eapply sim_to_step; [exact S2|]. intros c2 V2.
+  eexists. split; [apply (merge_xs_dag s2 news i)|]. now apply sim_merge.
+Qed.
+
+(* (2) every request is a sequence of accepted Core operations on the view of any repo *)
+Theorem sim_step s r c i : RepoInv s -> oracle_ok s r -> view_ok c s i ->
+  exists xs, Forall dag_xop xs /\ view_ok (xrun xs c) (fst (Model.Repo.step repaired s r)) i.
+Proof.
+  intros I O VW. destruct (req_xs s i r) as [xs|] eqn:E.
+  - exists xs. now apply (sim_step_exact s r c i xs).
+  - destruct r; try discriminate. now apply sim_resolve.
+Qed.
+
+(* ------------------------------------------------------------------ histories of the real request language *)
+
+Lemma data_step_view c o s i : data_op o -> view_ok c s i -> view_ok (fst (Model.Core.step c o)) s i.
+Proof.
+  intros D [A B]. destruct o; try contradiction; simpl.
+  - destruct (writable c v); constructor; auto.
+  - destruct (writable c v); constructor; auto.
+  - constructor; auto.
+Qed.
+
+(* the combined machine can always move: every repo request has its Core counterpart *)
+Theorem hstep_total i s c h : RepoInv s -> view_ok c s i ->
+  match h with HRepo r => oracle_ok s r | HData o => data_op o end ->
+  exists y, hstep i (s, c) h y.
+Proof.
+  intros I VW H. destruct h as [r|o].
+  - destruct (sim_step s r c i I H VW) as (xs & D & V). eexists. now apply (hs_repo i s c r xs).
+  - eexists. now apply hs_data.
+Qed.
+
+(* along any history: RepoInv, CoreInv, the view, and the reads of committed versions *)
+Theorem hrun_invariants i hs : forall s c s' c', RepoInv s -> horacles_ok s hs -> CoreInv c -> view_ok c s i ->
+  hrun i (s, c) hs (s', c') ->
+  RepoInv s' /\ CoreInv c' /\ view_ok c' s' i /\
+  forall k v, In v (locked c) -> cget c' k v = cget c k v.
+Proof.
+  induction hs as [|h hs IH]; intros s c s' c' I O CI VW R.
+  - inversion R; subst. split; [exact I|]. split; [exact CI|]. split; [exact VW|]. reflexivity.
+  - inversion R as [|x h' y hs' z Hstep Hrest]; subst.
+    inversion Hstep as [s0 c0 r xs Dx V|s0 c0 o Dd]; subst.
+    + simpl in O. destruct O as [O1 O2].
+      assert (I1 : RepoInv (fst (Model.Repo.step repaired s r))) by now apply inv_step.
+      assert (CI1 : CoreInv (xrun xs c)) by now apply xrun_inv.
+      destruct (IH _ _ _ _ I1 O2 CI1 V Hrest) as (A & B & C & D).
+      split; [exact A|]. split; [exact B|]. split; [exact C|]. intros k v Hv. rewrite D; [now apply xrun_get_stable|now apply xrun_locked].
+    + simpl in O.
+      assert (CI1 : CoreInv (fst (Model.Core.step c o))) by now apply core_inv_step.
+      assert (V1 : view_ok (fst (Model.Core.step c o)) s i) by now apply data_step_view.
+      destruct (IH _ _ _ _ I O CI1 V1 Hrest) as (A & B & C & D).
+      split; [exact A|]. split; [exact B|]. split; [exact C|]. intros k v Hv. rewrite D; [now apply get_stable_step|now apply locked_mono].
+Qed.
+
+(* the corollary: in a repo of any reachable manager state, whatever repo requests (of any kind, on
+   any repo, accepted or refused) and data writes come later, a committed version keeps reading
+   what it read -- C01/C02's get_stable with the accept flags computed by the repo machine *)
+Corollary committed_reads_stable rs i R r st v n hs s' c' k :
+  oracles_ok repaired init rs ->
+  let s := Model.Repo.run repaired init rs in
+  st_roots s !! i = Some R -> st_repos s !! i = Some r ->
+  r_nodes r !! v = Some n -> n_locked n = true ->
+  horacles_ok s hs -> hrun i (s, core_of s r st) hs (s', c') ->
+  cget c' k v = cget (core_of s r st) k v /\ view_ok c' s' i.
+Proof.
+  intros O s HR Hr Hn Hl HO HR'.
+  assert (I : RepoInv s) by now apply inv_reachable.
+  pose proof (core_of_inv s i R r st I HR Hr) as CI.
+  pose proof (core_of_view s i r st Hr) as VW.
+  destruct (hrun_invariants i hs s _ s' c' I HO CI VW HR') as (_ & _ & V' & G).
+  split; auto. apply G. destruct (view_node _ s i r v n VW Hr Hn) as (_ & L & _). auto.
+Qed.
+
+(* reads at reachable states are the frontier reads of C01 *)
+Corollary reachable_get_spec rs i R r st k v :
+  oracles_ok repaired init rs ->
+  let s := Model.Repo.run repaired init rs in
+  st_roots s !! i = Some R -> st_repos s !! i = Some r ->
+  read_spec (cpar (core_of s r st)) (ent_of (core_of s r st) k) v (cget (core_of s r st) k v).
+Proof.
+  intros O s HR Hr. apply get_spec. eapply core_of_inv; eauto. now apply inv_reachable.
+Qed.
+
+(* histories exist: any list of requests with a correct oracle can be run *)
+Theorem hrun_total i hs : forall s c, RepoInv s -> CoreInv c -> view_ok c s i -> horacles_ok s hs ->
+  Forall (fun h => match h with HData o => data_op o | _ => True end) hs ->
+  exists y, hrun i (s, c) hs y.
+Proof.
+  induction hs as [|h hs IH]; intros s c I CI VW O D.
+  - eexists. constructor.
+  - inversion D as [|? ? Dh Dt]; subst. destruct h as [r|o]; simpl in O.
+    + destruct O as [O1 O2]. destruct (sim_step s r c i I O1 VW) as (xs & Dx & V).
+      destruct (IH _ (xrun xs c) (inv_step s r I O1) (xrun_inv xs c CI) V O2 Dt) as [y Hy].
+      exists y. econstructor; [apply (hs_repo i s c r xs Dx V)|exact Hy].
+    + destruct (IH s _ I (core_inv_step c o CI) (data_step_view c o s i Dh VW) O Dt) as [y Hy].
+      exists y. econstructor; [now apply hs_data|exact Hy].
+Qed.
